@@ -299,7 +299,8 @@ func c25Responder(p rt.Params, rep *rt.Reporter, ci int) {
 		}
 	}
 	if inc == "" {
-		for round := 0; round < 3; round++ {
+		stable := 0
+		for round := 0; round < 10 && stable < 2; round++ {
 			starved = ""
 			for _, h := range hreqs {
 				if !h.req.Closed() {
@@ -316,15 +317,24 @@ func c25Responder(p rt.Params, rep *rt.Reporter, ci int) {
 					inc = "confirming starvation: " + why
 					break
 				}
+				if phase == "blocked" {
+					stable++
+				}
 				continue
 			}
-			if ok, _ := w.Q.Sustained(1500 * time.Millisecond); !ok {
+			if ok, _ := w.Q.Sustained(1500 * time.Millisecond); ok {
+				stable++
+			} else {
 				var why string
 				if phase, why = settle(w, R); phase == "" {
 					inc = "confirming starvation: " + why
 					break
 				}
 			}
+		}
+		if inc == "" && starved != "" && stable < 2 {
+			inc = "a healthy request stays unfinished but the system never stayed quiet long enough to decide: " + starved
+			starved = ""
 		}
 	}
 	loopBlocked := atomic.LoadInt32(&R.LoopBlocked) != 0
@@ -543,7 +553,8 @@ func c25Requestor(p rt.Params, rep *rt.Reporter, ci int) {
 		}
 	}
 	if inc == "" {
-		for round := 0; round < 3; round++ {
+		stable := 0
+		for round := 0; round < 10 && stable < 2; round++ {
 			starved = ""
 			for _, h := range hreqs {
 				if !h.req.Closed() {
@@ -559,15 +570,24 @@ func c25Requestor(p rt.Params, rep *rt.Reporter, ci int) {
 					inc = "confirming starvation: " + why
 					break
 				}
+				if phase == "blocked" {
+					stable++
+				}
 				continue
 			}
-			if ok, _ := w.Q.Sustained(1500 * time.Millisecond); !ok {
+			if ok, _ := w.Q.Sustained(1500 * time.Millisecond); ok {
+				stable++
+			} else {
 				var why string
 				if phase, why = settle(w, A); phase == "" {
 					inc = "confirming starvation: " + why
 					break
 				}
 			}
+		}
+		if inc == "" && starved != "" && stable < 2 {
+			inc = "a healthy request stays unfinished but the system never stayed quiet long enough to decide: " + starved
+			starved = ""
 		}
 	}
 	loopBlocked := atomic.LoadInt32(&A.LoopBlocked) != 0
